@@ -277,7 +277,8 @@ def main(argv: list[str]) -> int:
             for v2 in sorted(D.D2[m]):
                 if v2 == w[m]:
                     continue
-                if m == "c" and tier == "quick" and sum(1 for x, y in zip(v2, w[m]) if x != y) != 1:
+                if m == "c" and tier == "quick" and (len(v2) != len(w[m]) and "k0000" not in (v2[:5], w[m][:5]) and "k1000" not in (v2[:5], w[m][:5])
+                                                      or sum(1 for x, y in zip(v2.ljust(6, "-"), w[m].ljust(6, "-")) if x != y) != 1):
                     continue
                 if m != "c" and tier == "quick":
                     continue
